@@ -8,8 +8,9 @@ CONFIGS_QUICK = [
     ('default', ()),
     ('O3-indirect-eof', ('-O3', '-findirect-start-ptr', '-feof-support')),
     ('O2-ondemand-free-u8-hookstate', ('-O2', '-fallocate-str-space-dynamic-on-demand', '-fdelete-string-free-memory', '-fstrings-as-u8', '-fhook-per-state')),
-    ('O1-strict-dynamic-userptr-packed-zerolen', ('-O1', '-fstrict-done-token-generation', '-fallocate-str-space-dynamic', '-finclude-user-ptr',
-                                                   '-fuse-packed-enums', '-fzero-len-input-support')),
+    # -fdelete-string-free-memory without on-demand allocation is accepted and must not free anything (nothing would re-allocate)
+    ('O1-strict-dynamic-free-userptr-packed-zerolen', ('-O1', '-fstrict-done-token-generation', '-fallocate-str-space-dynamic', '-fdelete-string-free-memory', '-finclude-user-ptr',
+                                                        '-fuse-packed-enums', '-fzero-len-input-support')),
     ('O3-yield-unsafeidx-range1', ('-O3', '-fyield-support', '-funsafe-string-indexing', '--collapsed-range-length', '1')),
 ]
 CONFIGS_THOROUGH = CONFIGS_QUICK + [
@@ -161,7 +162,7 @@ def replay_finding(comp, L, m, f):
         return {'reproduced': diff is not None, 'diff': diff, 'whole': t1[-2:], 'split': t2[-2:]}
     if f['kind'] in ('c10-diff', 'c10-ok', 'c10-fail'):
         bs = f['bytes']
-        calls = [('feed', bs)]
+        calls = [('end',)] if str(f.get('calls', '')).startswith('end') else [('feed', bs)]
         if f['kind'] == 'c10-fail':
             calls.append(('end',) if f.get('next_call') == 'end' else ('feed', [f.get('next_byte', 0)]))
         sc = {'pre': f['pre'], 'calls': calls}
@@ -256,6 +257,8 @@ def concrete_inv_violation(comp, L, clog, f):
 
 def run_jobs(jobs, nproc=None, progress=None):
     nproc = nproc or chk.ncpu()
+    if chk.ONLY:
+        jobs = [j for j in jobs if chk.ONLY in j.get('label', '')]
     ctx = mp.get_context('fork')
     with ctx.Pool(min(nproc, max(1, len(jobs))), maxtasksperchild=8) as pool:
         done = 0
